@@ -68,7 +68,6 @@ Section Sequences.
   Hypothesis Hw : 0 < w.
   Hypothesis Hlegal : forall c, legal c -> 1 <= c.
   Hypothesis Hoks_cut : forall s c, oks s -> legal c -> oks (s + c).
-  Hypothesis Hoks_min : forall s c, oks s -> legal c -> 0 <= s <= w -> oks (s + Z.min c (w - s)).
 
   Fixpoint run (f : St -> Z -> option (Z * St)) (st : St) (cs : list Z) : option (list Z * St) :=
     match cs with
@@ -109,24 +108,35 @@ Section Sequences.
     exists vs. rewrite Z.add_0_l, Hs in E. rewrite Hs, field_whole in J by lia. auto.
   Qed.
 
-  (** [safe_cut]: the count is clipped to what is left; at end-of-stream it returns 0 *)
-  Hypothesis Hsafe : forall n s c, okn n -> oks s -> 0 <= s <= w -> legal c ->
+  (** [safe_cut]: the count is clipped to what is left; at end-of-stream it returns 0.  A splitter may treat
+      the request for the whole source at once specially ([Hfull]: number_splitter returns the number itself,
+      [whole n], because [cut] cannot shift by the full width); [Hsafe] covers every other call. *)
+  Variable legal_safe : Z -> Prop.            (* counts accepted by safe_cut *)
+  Variable whole : Z -> Z.
+  Hypothesis Hlegal_safe : forall c, legal_safe c -> 1 <= c.
+  Hypothesis Hoks_min : forall s c, oks s -> legal_safe c -> 0 <= s <= w -> oks (s + Z.min c (w - s)).
+  Hypothesis Hsafe : forall n s c, okn n -> oks s -> 0 <= s <= w -> legal_safe c -> 0 < s \/ c < w ->
     safef (mk n s) c = Some (field w n s (Z.min c (w - s)), mk n (s + Z.min c (w - s))).
+  Hypothesis Hfull : forall n c, okn n -> oks 0 -> legal_safe c -> w <= c ->
+    safef (mk n 0) c = Some (whole n, mk n w).
 
   Fixpoint clip (s : Z) (cs : list Z) : list Z :=
     match cs with [] => [] | c :: r => Z.min c (w - s) :: clip (s + Z.min c (w - s)) r end.
 
-  Lemma run_safe_spec cs : forall n s, okn n -> oks s -> 0 <= s <= w -> Forall legal cs ->
+  Lemma zsum_safe_nonneg cs : Forall legal_safe cs -> 0 <= zsum cs.
+  Proof. intros H. induction H as [|c r Hc Hr IH]; cbn [zsum]; [lia|]. apply Hlegal_safe in Hc. lia. Qed.
+
+  Lemma run_safe_spec cs : forall n s, okn n -> oks s -> 0 < s <= w -> Forall legal_safe cs ->
     exists vs, run safef (mk n s) cs = Some (vs, mk n (s + zsum (clip s cs))) /\ length vs = length cs /\
                joinf (combine vs (clip s cs)) = field w n s (zsum (clip s cs)) /\
                s + zsum (clip s cs) = Z.min w (s + zsum cs).
   Proof.
     induction cs as [|c r IH]; intros n s Hn Hos Hs Hl.
     - exists []. cbn [run clip zsum combine joinf length]. rewrite !Z.add_0_r, field_0. repeat split; auto. lia.
-    - inversion_clear Hl as [|? ? Hc Hr]. pose proof (Hlegal c Hc). cbn [zsum clip] in *.
+    - inversion_clear Hl as [|? ? Hc Hr]. pose proof (Hlegal_safe c Hc). cbn [zsum clip] in *.
       set (c' := Z.min c (w - s)).
-      pose proof (zsum_legal_nonneg r Hr).
-      destruct (IH n (s + c') Hn (Hoks_min s c Hos Hc Hs) ltac:(unfold c'; lia) Hr) as [vs [E [L [J M]]]].
+      pose proof (zsum_safe_nonneg r Hr).
+      destruct (IH n (s + c') Hn (Hoks_min s c Hos Hc ltac:(lia)) ltac:(unfold c'; lia) Hr) as [vs [E [L [J M]]]].
       exists (field w n s c' :: vs). cbn [run]. rewrite Hsafe by (auto; lia). fold c'. rewrite E.
       split; [f_equal; f_equal; f_equal; lia|]. split; [cbn; lia|]. split.
       + cbn [combine joinf]. rewrite J.
@@ -135,12 +145,48 @@ Section Sequences.
       + unfold c' in *. lia.
   Qed.
 
-  Theorem safe_cut_sequence_reconstructs_gen n cs : okn n -> oks 0 -> Forall legal cs -> w <= zsum cs ->
-    exists vs, run safef (mk n 0) cs = Some (vs, mk n w) /\ length vs = length cs /\
-               joinf (combine vs (clip 0 cs)) = n mod 2 ^ w.
+  (** From the start: the first call may be the whole-source request. *)
+  Lemma run_safe_from_start n cs : okn n -> oks 0 -> Forall legal_safe cs ->
+    exists vs, run safef (mk n 0) cs = Some (vs, mk n (Z.min w (zsum cs))) /\ length vs = length cs /\
+               (joinf (combine vs (clip 0 cs)) = field w n 0 (Z.min w (zsum cs)) \/
+                w <= zsum cs /\ joinf (combine vs (clip 0 cs)) = whole n).
   Proof.
-    intros Hn Ho Hl Hs. destruct (run_safe_spec cs n 0 Hn Ho ltac:(lia) Hl) as [vs [E [L [J M]]]].
-    rewrite Z.add_0_l in *. assert (Z0 : zsum (clip 0 cs) = w) by lia.
-    exists vs. rewrite Z0 in *. rewrite field_whole in J by lia. auto.
+    intros Hn Ho Hl. destruct cs as [|c r].
+    - exists []. cbn [run zsum clip combine joinf length]. replace (Z.min w 0) with 0 by lia. rewrite field_0. auto.
+    - inversion_clear Hl as [|? ? Hc Hr]. pose proof (Hlegal_safe c Hc). pose proof (zsum_safe_nonneg r Hr).
+      assert (C : clip 0 (c :: r) = Z.min c w :: clip (Z.min c w) r).
+      { cbn [clip]. f_equal; [f_equal; lia|f_equal; lia]. }
+      rewrite C. clear C. cbn [zsum run].
+      destruct (Z_lt_le_dec c w) as [Hlt|Hge].
+      + replace (Z.min c w) with c by lia.
+        pose proof (Hoks_min 0 c Ho Hc ltac:(lia)) as Ho'. rewrite Z.add_0_l, Z.sub_0_r in Ho'.
+        replace (Z.min c w) with c in Ho' by lia.
+        destruct (run_safe_spec r n c Hn Ho' ltac:(lia) Hr) as [vs [E [L [J M]]]].
+        exists (field w n 0 c :: vs). rewrite Hsafe by (auto; lia).
+        replace (Z.min c (w - 0)) with c by lia. rewrite Z.add_0_l. rewrite E.
+        split; [f_equal; f_equal; f_equal; lia|]. split; [cbn; lia|]. left.
+        cbn [combine joinf]. rewrite J.
+        assert (0 <= zsum (clip c r)) by lia.
+        pose proof (field_join w n 0 c (zsum (clip c r)) ltac:(lia) ltac:(lia) ltac:(lia)) as FJ.
+        rewrite Z.add_0_l in FJ. rewrite FJ. f_equal. lia.
+      + replace (Z.min c w) with w by lia.
+        assert (Ho' : oks w).
+        { pose proof (Hoks_min 0 c Ho Hc ltac:(lia)) as Ho'. rewrite Z.add_0_l, Z.sub_0_r in Ho'.
+          replace (Z.min c w) with w in Ho' by lia. exact Ho'. }
+        destruct (run_safe_spec r n w Hn Ho' ltac:(lia) Hr) as [vs [E [L [J M]]]].
+        assert (Z0 : zsum (clip w r) = 0) by lia. rewrite Z0, Z.add_0_r in E. rewrite Z0, field_0 in J.
+        exists (whole n :: vs). rewrite Hfull by auto. rewrite E.
+        split; [f_equal; f_equal; f_equal; lia|]. split; [cbn; lia|]. right. split; [lia|].
+        cbn [combine joinf]. rewrite J. lia.
+  Qed.
+
+  Theorem safe_cut_sequence_reconstructs_gen n cs : okn n -> oks 0 -> Forall legal_safe cs -> w <= zsum cs ->
+    exists vs, run safef (mk n 0) cs = Some (vs, mk n w) /\ length vs = length cs /\
+               (joinf (combine vs (clip 0 cs)) = n mod 2 ^ w \/ joinf (combine vs (clip 0 cs)) = whole n).
+  Proof.
+    intros Hn Ho Hl Hs. destruct (run_safe_from_start n cs Hn Ho Hl) as [vs [E [L J]]].
+    replace (Z.min w (zsum cs)) with w in * by lia.
+    exists vs. split; [exact E|]. split; [exact L|].
+    destruct J as [J|[_ J]]; [left; rewrite J; apply field_whole; lia|right; exact J].
   Qed.
 End Sequences.
